@@ -107,8 +107,155 @@ class AddFirstObservation(Spec):
         return res
 
 
-UNITS = [AddObservations(), AddFirstObservation()]
+# ------------------------------------------------------------------------------------------------------------------
+# Dataset: the padded tensors
+from pyvc.core import Symbolic
+from pyvc.tensor import STensor, F_ISNAN, dim_z3
+
+NV = z3.Function("n_visits_of", z3.IntSort(), z3.IntSort())                       # ghost: visits of individual i
+OBSV = z3.Function("observation", z3.IntSort(), z3.IntSort(), z3.IntSort(), z3.RealSort())   # ghost: value (i, visit, feature); NaN-ness = isnan(value)
+AGE = z3.Function("age", z3.IntSort(), z3.IntSort(), z3.RealSort())
+
+
+class GhostIndividual(Symbolic):
+    def __init__(self, cx, i, F):
+        self.cx, self.i, self.F = cx, i, F
+
+    def _getattr(self, it, name, node=None):
+        i = self.i
+        if name == "timepoints":
+            return SSeq(self.cx, REAL, "tp", length=NV(i), arr=z3.Lambda([z3.Int("v_tp")], AGE(i, z3.Int("v_tp"))), pytype=np.ndarray)
+        if name == "observations":
+            return STensor((NV(i), self.F), lambda idx: OBSV(i, idx[0], idx[1]), "real")
+        raise OutOfSubset(f"IndividualData.{name}")
+
+
+class GhostData(Symbolic):
+    """a Data object with an unknown number of individuals, each with an unknown number of visits"""
+    _symbolic_iterable = True
+
+    def __init__(self, cx, N, F):
+        self.cx, self.N, self.F = cx, N, F
+
+    def _loop_view(self, it):
+        return self.N, (lambda j: GhostIndividual(self.cx, j, self.F)), (lambda j: j)
+
+    def _getitem(self, it, k, node=None):
+        kz = to_z3(k, "int")
+        if it.cx.branch(z3.Or(kz < 0, kz >= self.N), node):
+            from pyvc import ops
+            ops.raise_(IndexError, "individual index out of range", node=node)
+        return GhostIndividual(self.cx, kz, self.F)
+
+
+def construct_values_inv(cx, env, k, view):
+    g = cx.ghost
+    N, F = g["N"], g["F"]
+    M = to_z3(env["self"].f["n_visits_max"], "int")
+    vals, pad = env["values"], env["padding_mask"]
+    i, v, f = z3.Ints("i_inv v_inv f_inv")
+    dom = z3.And(0 <= i, i < N, 0 <= v, v < M, 0 <= f, f < F)
+    done = z3.And(i < k, v < NV(i))
+    return [("rows already filled hold the observations, everything else is still zero",
+             z3.ForAll([i, v, f], z3.Implies(dom, vals.fn((i, v, f)) == z3.If(done, OBSV(i, v, f), z3.RealVal(0))))),
+            ("padding indicator: 1 on the visits of the rows already filled, 0 elsewhere",
+             z3.ForAll([i, v, f], z3.Implies(dom, pad.fn((i, v, f)) == z3.If(done, z3.RealVal(1), z3.RealVal(0)))))]
+
+
+class ConstructValues(Spec):
+    """Dataset._construct_values(data), up to the assignment of `self.mask` (dropped: the observation counters after it): for any
+    number of individuals, visits per individual and features -- n_visits_max is the largest number of visits; entry
+    (i, v, f) of `mask` is 1 exactly when v is one of individual i's visits and the observation is not NaN, else 0; entry
+    (i, v, f) of `values` is the observation where the mask is 1 and 0 everywhere else (padding and missing values)."""
+    target = "leaspy.io.data.dataset:Dataset._construct_values"
+    fragment = (lambda t: t.startswith("self.n_visits_per_individual ="), lambda t: t.startswith("self.mask = mask"))
+    loops = {("Dataset._construct_values", 0): LoopSpec(construct_values_inv, modifies=lambda cx, env: [env["values"], env["padding_mask"]])}
+
+    def setup(self, cx, cfg):
+        from leaspy.io.data.dataset import Dataset
+        N, F = z3.Ints("N_ind F_ft")
+        cx.ghost.update(N=N, F=F)
+        cx.assume(z3.Not(F_ISNAN(z3.RealVal(0))))
+        ds = SymObj(Dataset, dict(n_individuals=SV(N, "int"), dimension=SV(F, "int")))
+        data = GhostData(cx, N, F)
+        return dict(env={"self": ds, "data": data, "torch": __import__("torch"), "np": np}, ds=ds, N=N, F=F)
+
+    def pre(self, cx, st):
+        i = z3.Int("i_pre")
+        return [("at least one individual, one feature", z3.And(st["N"] >= 1, st["F"] >= 1)),
+                ("every individual has at least one visit (class invariant of Data: individuals without a visit are not kept)", z3.ForAll([i], NV(i) >= 1))]
+
+    def post(self, cx, st, out):
+        ds = st["ds"]
+        N, F = st["N"], st["F"]
+        M = ds.f.get("n_visits_max")
+        vals, mask = ds.f.get("values"), ds.f.get("mask")
+        ok = isinstance(M, SV) and isinstance(vals, STensor) and isinstance(mask, STensor) and vals.ndim == 3 and mask.ndim == 3
+        res = [("n_visits_max, values and mask are set", z3.BoolVal(bool(ok)))]
+        if not ok:
+            return res
+        Mz = M.e
+        i, v, f, w = z3.Ints("i_p v_p f_p w_p")
+        res.append(("n_visits_max is the largest number of visits", z3.And(z3.ForAll([i], z3.Implies(z3.And(0 <= i, i < N), NV(i) <= Mz)),
+                                                                              z3.Exists([w], z3.And(0 <= w, w < N, NV(w) == Mz)))))
+        res.append(("shapes (individuals, n_visits_max, features)", z3.And(*[dim_z3(a) == b for t in (vals, mask) for a, b in zip(t.shape_, (N, Mz, F))])))
+        dom = z3.And(0 <= i, i < N, 0 <= v, v < Mz, 0 <= f, f < F)
+        observed = z3.And(v < NV(i), z3.Not(F_ISNAN(OBSV(i, v, f))))
+        res.append(("mask = 1 exactly on the observed entries (a visit of the individual, value not NaN)",
+                    z3.ForAll([i, v, f], z3.Implies(dom, mask.elem_real((i, v, f)) == z3.If(observed, z3.RealVal(1), z3.RealVal(0))))))
+        res.append(("values = the observation on observed entries, 0 on padding and on missing values",
+                    z3.ForAll([i, v, f], z3.Implies(dom, vals.elem_real((i, v, f)) == z3.If(observed, OBSV(i, v, f), z3.RealVal(0))))))
+        return res
+
+
+def construct_timepoints_inv(cx, env, k, view):
+    g = cx.ghost
+    N = g["N"]
+    tp = env["self"].f["timepoints"]
+    M = to_z3(env["self"].f["n_visits_max"], "int")
+    i, v = z3.Ints("i_inv v_inv")
+    return [("rows already filled hold the ages, everything else is still zero",
+             z3.ForAll([i, v], z3.Implies(z3.And(0 <= i, i < N, 0 <= v, v < M),
+                                          tp.fn((i, v)) == z3.If(z3.And(i < k, v < NV(i)), AGE(i, v), z3.RealVal(0)))))]
+
+
+class ConstructTimepoints(Spec):
+    """Dataset._construct_timepoints(data): entry (i, v) of `timepoints` is the v-th age of individual i for its own visits and 0
+    on the padding, for any number of individuals and visits."""
+    target = "leaspy.io.data.dataset:Dataset._construct_timepoints"
+    loops = {("Dataset._construct_timepoints", 0): LoopSpec(construct_timepoints_inv, modifies=lambda cx, env: [env["self"].f["timepoints"]])}
+
+    def setup(self, cx, cfg):
+        from leaspy.io.data.dataset import Dataset
+        N, M = z3.Ints("N_ind M_vis")
+        cx.ghost.update(N=N)
+        ds = SymObj(Dataset, dict(n_individuals=SV(N, "int"), n_visits_max=SV(M, "int")))
+        data = GhostData(cx, N, z3.IntVal(1))
+        return dict(args=(ds, data), ds=ds, N=N, M=M)
+
+    def pre(self, cx, st):
+        i = z3.Int("i_pre")
+        return [("at least one individual", st["N"] >= 1),
+                ("n_visits_max bounds every individual's number of visits (established by _construct_values)",
+                 z3.ForAll([i], z3.And(NV(i) >= 1, z3.Implies(z3.And(0 <= i, i < st["N"]), NV(i) <= st["M"]))))]
+
+    def post(self, cx, st, out):
+        tp = st["ds"].f.get("timepoints")
+        ok = isinstance(tp, STensor) and tp.ndim == 2
+        res = [("timepoints is a 2-D tensor", z3.BoolVal(bool(ok)))]
+        if ok:
+            i, v = z3.Ints("i_p v_p")
+            res.append(("shape (individuals, n_visits_max)", z3.And(dim_z3(tp.shape_[0]) == st["N"], dim_z3(tp.shape_[1]) == st["M"])))
+            res.append(("ages on the individual's own visits, 0 on the padding",
+                        z3.ForAll([i, v], z3.Implies(z3.And(0 <= i, i < st["N"], 0 <= v, v < st["M"]),
+                                                     tp.elem_real((i, v)) == z3.If(v < NV(i), AGE(i, v), z3.RealVal(0))))))
+        return res
+
+
+UNITS = [AddObservations(), AddFirstObservation(), ConstructValues(), ConstructTimepoints()]
 CALLEES = []
-ASSUMPTIONS = ["ages are real numbers (not NaN): established by the reader's _check_TIME before add_observations is reached",
+ASSUMPTIONS = ["Dataset tensors in real arithmetic: an observation's NaN-ness is the uninterpreted predicate isnan(value), isnan(0) is false; "
+               "torch.tensor(np.array(observations)) holds the observations entry by entry (float32 rounding not modelled)",
+               "ages are real numbers (not NaN): established by the reader's _check_TIME before add_observations is reached",
                "bisect on a sorted array returns the insertion point after the entries <= x; np.concatenate / slicing on 1-D arrays as sequence operations"]
-NOT_DECIDED = ["the pandas readers, Dataset._construct_values / _construct_timepoints, Dataset.to_pandas: bounded stand-in only"]
+NOT_DECIDED = ["the pandas readers and Dataset.to_pandas: bounded stand-in only"]
